@@ -319,6 +319,11 @@ def run(res, tier):
         alt = replay(res, tier, sub, flags=flags, tag="opt%d" % k, values=False)
         for key, r in alt.items():
             b = base.get(key)
+            dk = json.loads(key)
+            # classes whose layout is a recorded finding already (the base run reports them against C): the two
+            # runs can be wrong in different ways, which says nothing about the presentation option
+            if ((dk["pack"] > 0 or dk["packed"]) and ("l" in dk["codes"] or dk["aligned"] > 0 or dk["malign"] > 0)):
+                continue
             if b and any(b[x] != r[x] for x in ("size", "align", "offsets")):
                 res.violation("presentation-option-changes-layout:%s" % flags[0],
                               {"decl": key, "base": b, "with_option": r, "flags": flags})
